@@ -9,6 +9,11 @@
 //	    the resulting httpConn and an in-memory conn; either the in-memory side or the proxy
 //	    side ends first.  Reply: ok returned=<0|1> ret=<class> proxy_saw_close=<0|1>
 //	    local_closed=<0|1> to_proxy=<bytes> (bounded waits of 3 s, reported when exceeded)
+//	sockspipe <k> <n>
+//	    the real clientHandler on a SOCKS5 conversation whose CONNECT request is followed, in the
+//	    SAME write, by the first k bytes of an n-byte payload stream; the rest is sent after the
+//	    reply, then EOF.  The transport conn records what reaches it.
+//	    Reply: ok dialed=<0|1> socks=<hex of everything written to the SOCKS conn> got=<hex>
 //	orburst <bytes> <read-chunk> <read-pause-us>
 //	    the real serverHandler (stub transport: WrapConn hands out an in-memory conn that delivers
 //	    <bytes> of pattern data and then EOF) with a loopback ORPort that reads <read-chunk> bytes
@@ -32,6 +37,8 @@ import (
 
 	pt "gitlab.torproject.org/tpo/anti-censorship/pluggable-transports/goptlib"
 	"golang.org/x/net/proxy"
+
+	"gitlab.com/yawning/obfs4.git/transports/base"
 )
 
 func verifTCPCommand(w []string) string {
@@ -41,6 +48,16 @@ func verifTCPCommand(w []string) string {
 			return "bad-op"
 		}
 		return verifProxyRelay(w[1])
+	case "sockspipe":
+		if len(w) != 3 {
+			return "bad-op"
+		}
+		k, e1 := strconv.Atoi(w[1])
+		n, e2 := strconv.Atoi(w[2])
+		if e1 != nil || e2 != nil || k < 0 || k > n || n > 1<<20 {
+			return "bad-op"
+		}
+		return verifSocksPipe(k, n)
 	case "orburst":
 		if len(w) != 4 {
 			return "bad-op"
@@ -211,6 +228,97 @@ func verifProxyRelay(order string) string {
 		ret = "other"
 	}
 	return fmt.Sprintf("ok returned=%d ret=%s proxy_saw_close=%d local_closed=%d to_proxy=%d", returned, ret, saw, localClosed, toProxy)
+}
+
+// verifRecConn: a transport conn that records what is written to it and stays silent until closed.
+type verifRecConn struct {
+	*verifMemConn
+	mu  sync.Mutex
+	buf bytes.Buffer
+}
+
+func (c *verifRecConn) Write(p []byte) (int, error) {
+	n, err := c.verifMemConn.Write(p)
+	c.mu.Lock()
+	c.buf.Write(p[:n])
+	c.mu.Unlock()
+	return n, err
+}
+
+// verifSocksTap records what clientHandler writes to the SOCKS conn.
+type verifSocksTap struct {
+	*verifLogConn
+	mu  sync.Mutex
+	buf bytes.Buffer
+}
+
+func (c *verifSocksTap) Write(p []byte) (int, error) {
+	c.mu.Lock()
+	c.buf.Write(p)
+	c.mu.Unlock()
+	return c.verifLogConn.Write(p)
+}
+
+type verifPipeFactory struct {
+	verifLogFactory
+	dialed bool
+}
+
+func (f *verifPipeFactory) Dial(a, b string, d base.DialFunc, args any) (net.Conn, error) {
+	f.dialed = true
+	return f.verifLogFactory.Dial(a, b, d, args)
+}
+
+func verifSocksPipe(k, n int) string {
+	payload := verifBurstPattern(n)
+	for i := range payload {
+		payload[i] ^= 0x5c
+	}
+	socks, err := verifSocksRequest("127.0.0.1:80")
+	if err != nil {
+		return "bad-op"
+	}
+	segs := [][]byte{socks[0], append(append([]byte{}, socks[1]...), payload[:k]...)}
+	if k < n {
+		segs = append(segs, payload[k:])
+	}
+	local := verifStrAddr{"127.0.0.1:9050"}
+	conn := &verifSocksTap{verifLogConn: verifNewLogConn(local, verifStrAddr{"127.0.0.1:40000"}, io.EOF, segs...)}
+	rec := &verifRecConn{verifMemConn: verifNewMemConn(nil, make(chan struct{}))}
+	f := &verifPipeFactory{}
+	f.remote = rec
+	m := &termMonitor{sigChan: make(chan os.Signal), handlerChan: make(chan int)}
+	termMon = m
+	stop := make(chan struct{})
+	defer close(stop)
+	go func() {
+		for {
+			select {
+			case <-m.handlerChan:
+			case <-stop:
+				return
+			}
+		}
+	}()
+	done := make(chan struct{})
+	go func() {
+		defer close(done)
+		clientHandler(f, conn, nil)
+	}()
+	select {
+	case <-done:
+	case <-time.After(5 * time.Second):
+		return "stuck clientHandler"
+	}
+	d := 0
+	if f.dialed {
+		d = 1
+	}
+	rec.mu.Lock()
+	defer rec.mu.Unlock()
+	conn.mu.Lock()
+	defer conn.mu.Unlock()
+	return fmt.Sprintf("ok dialed=%d socks=%s got=%s", d, verifHex(conn.buf.Bytes()), verifHex(rec.buf.Bytes()))
 }
 
 func verifBurstPattern(n int) []byte {
